@@ -1,2 +1,3 @@
+@staticmethod
 def spec(tensor, constraints, strict):
     return tensor is None or isinstance(tensor, nn.UninitializedBuffer | nn.UninitializedParameter) or (not (tensor.numel() or tensor.ndim > 1)) or _constraints_compatible(tensor, constraints, strict)
